@@ -54,7 +54,10 @@ int main(int argc, char** argv)
     // ---------------- stencils ----------------
     int maxe = E.thorough ? 12 : 5;
     int ncases = E.thorough ? 220 : 70;
-    for (int it = 0; it < ncases; it++) {
+    // trailing cases (the regular ones keep their numbers): stencils whose centre weight is zero
+    int nzero = ncases / 4;
+    for (int it0 = 0; it0 < ncases + nzero; it0++) {
+        bool zero_centre = it0 >= ncases; int it = zero_centre ? 12 + (it0 - ncases) : it0;
         int dim = 1 + it % 3;
         int grid[3] = {1, 1, 1}; for (int k = 0; k < dim; k++) grid[k] = g.range(1, dim == 3 ? std::min(maxe, 6) : maxe);
         if (it < 12) for (int k = 0; k < dim; k++) grid[k] = 1 + (it + k) % 4;           // small shapes first
@@ -62,6 +65,7 @@ int main(int argc, char** argv)
         std::vector<double> st(slen, 0.0);
         for (int k = 0; k <= slen / 2; k++) { double v = g.coin(1, 3) ? 0.0 : 0.25 * g.range(-8, 8); st[k] = v; st[slen - 1 - k] = v; }   // symmetric stencil, arbitrary zero pattern
         if (st[slen / 2] == 0) st[slen / 2] = 4.0;
+        if (zero_centre) st[slen / 2] = 0.0;
         char ctx[96]; snprintf(ctx, 96, "stencil/dim%d/%dx%dx%d", dim, grid[0], grid[1], grid[2]); E.about(ctx);
         std::vector<long long> gv(grid, grid + dim);
         if (np == 1) {
@@ -128,6 +132,16 @@ int main(int argc, char** argv)
         { E.about("io/readParMatrix(petsc,explicit)"); vh::Rng gl(E.seed * 41 + it); std::vector<int> R = vh::compose(gl, n, np, 1 + gl.below(3)), C = vh::compose(gl, m, np, 1 + gl.below(3));
           int fr = 0, fc = 0; for (int p = 0; p < rank; p++) { fr += R[p]; fc += C[p]; }
           ParCSRMatrix* B = readParMatrix(f4, R[rank], C[rank], fr, fc); auto got = flat(G(vh::local_entries(B, false))); emit("petsc-pr-explicit", 8, got, B->global_num_rows, B->global_num_cols); delete B; }
+    }
+    // a file whose entry count times row count exceeds 2^31 (a 47000 x 47000 diagonal): sizes no test file has
+    {
+        int nb = 47000; char fb[300]; snprintf(fb, 300, "%s/big.mtx", dir);
+        vh::Trip tbig; tbig.n_rows = tbig.n_cols = nb; for (int i = 0; i < nb; i++) { tbig.r.push_back(i); tbig.c.push_back(i); tbig.v.push_back(1.0 + (i % 7)); }
+        E.about("io/read_mm(write_mm)/big_diagonal");
+        std::vector<long long> got; int gr = -1, gc = -1;
+        if (rank == 0) { CSRMatrix* A = vh::make_csr(tbig); write_mm(A, fb); delete A; CSRMatrix* B = read_mm(fb); if (B) { got = seq_entries(B); gr = B->n_rows; gc = B->n_cols; delete B; } remove(fb); }
+        bool want = E.want();
+        if (rank == 0 && want) { vh::Case c("C19", "mateq"); c.i(1).i(0).i(nb).i(nb).vec(trip_bits(tbig)).vec(got).i(gr).i(gc); c.write(E.out); }
     }
     MPI_Barrier(MPI_COMM_WORLD);
     if (rank == 0) { std::string cmd = std::string("rm -rf ") + dir; if (system(cmd.c_str())) {} }
